@@ -14,8 +14,8 @@ import (
 // envelope ("sigs":[null]) or a pointer argument of an exported Envelope method
 // — is not dereferenced (field selection, value-receiver method, or a
 // pointer-receiver method that is not nil-receiver-safe) unless a nil test of
-// that pointer dominates the use. The pointer is followed into same-package
-// functions it is passed to.
+// that pointer dominates the use. The pointer is followed into the module
+// functions it is passed to and the methods it is the receiver of.
 func c14NilPointers(c *core.Ctx) {
 	p := c.P
 	c.Rule("C14-R10", "possibly-nil input pointers (envelope slice elements, API pointer arguments) are nil-tested before dereference", 2)
@@ -69,7 +69,7 @@ func c14NilPointers(c *core.Ctx) {
 	for len(work) > 0 {
 		it := work[0]
 		work = work[1:]
-		if seen[it.v] || it.depth > 3 {
+		if seen[it.v] || it.depth > 5 {
 			continue
 		}
 		seen[it.v] = true
@@ -86,6 +86,29 @@ func c14NilPointers(c *core.Ctx) {
 				if (g.Kind == "nil" || g.Kind == "err") && g.X != nil && core.VarOf(info, g.X) == it.v && val == g.Neg {
 					return true
 				}
+			}
+			// `if err := v.Validate(); err != nil { return }`: a method that fails for a nil receiver
+			// has vouched for the pointer once its error has been found nil
+			found := false
+			ast.Inspect(fd.Decl.Body, func(q ast.Node) bool {
+				call, ok := q.(*ast.CallExpr)
+				if !ok || found {
+					return true
+				}
+				if re := core.RecvExpr(call); re == nil || core.VarOf(info, re) != it.v {
+					return true
+				}
+				mfn := core.Callee(info, call)
+				if mfn == nil {
+					return true
+				}
+				if mfd := p.DeclOf(mfn); mfd != nil && rejectsNilReceiver(p, mfd) && ff.ErrNilAt(node, call) == 1 {
+					found = true
+				}
+				return true
+			})
+			if found {
+				return true
 			}
 			return shortCircuitGuard(info, fd.Decl.Body, at, it.v)
 		}
@@ -110,6 +133,11 @@ func c14NilPointers(c *core.Ctx) {
 						if mfd := p.DeclOf(mfn); mfd != nil {
 							if why := nilSafeReceiverMemo(p, mfd); why != "" {
 								unsafe = "method " + mfn.Name() + " dereferences its receiver (" + why + ")"
+							} else if rv := recvVar(mfd); rv != nil && !nonNil(x) {
+								// the method itself is careful, but it may hand its receiver on: follow it
+								if _, isPtr := rv.Type().(*types.Pointer); isPtr {
+									work = append(work, item{mfd, rv, it.from + ", receiver of " + mfd.Name(), it.depth + 1})
+								}
 							}
 						} else if _, isPtr := mfn.Type().(*types.Signature).Recv().Type().(*types.Pointer); !isPtr {
 							unsafe = "value-receiver method " + mfn.Name() + " is called"
@@ -128,7 +156,7 @@ func c14NilPointers(c *core.Ctx) {
 			case *ast.CallExpr:
 				// passed on to a function of the same package
 				fn := core.Callee(info, x)
-				if fn == nil || fn.Pkg() != fd.Obj.Pkg() {
+				if fn == nil || !core.InModule(fn.Pkg()) {
 					return true
 				}
 				cfd := p.DeclOf(fn)
@@ -159,4 +187,52 @@ func c14NilPointers(c *core.Ctx) {
 	if n == 0 {
 		c.Ob("C14-R10", "UNRESOLVED:nullable-pointers", token.NoPos, false, "no envelope slice element or pointer argument found")
 	}
+}
+
+
+var rejectsNilMemo = map[*types.Func]int{}
+
+// rejectsNilReceiver: the method returns an error as its last result and every
+// return that is not a certain failure lies where the receiver is known not to
+// be nil: called on a nil pointer it reports an error.
+func rejectsNilReceiver(p *core.Program, mfd *core.FuncDecl) bool {
+	if r, ok := rejectsNilMemo[mfd.Obj]; ok {
+		return r == 1
+	}
+	rejectsNilMemo[mfd.Obj] = 2
+	recv := recvVar(mfd)
+	sig := mfd.Obj.Type().(*types.Signature)
+	if recv == nil || sig.Results().Len() == 0 || core.TypeString(sig.Results().At(sig.Results().Len()-1).Type()) != "error" {
+		return false
+	}
+	if _, isPtr := recv.Type().(*types.Pointer); !isPtr {
+		return false
+	}
+	info := mfd.Pkg.TypesInfo
+	ff := core.NewFuncFlow(mfd)
+	n := 0
+	for _, r := range ff.Flow.Returns() {
+		if !ff.Flow.Reachable(r) {
+			continue
+		}
+		n++
+		if k, _ := ff.ClassifyReturn(p, r); k == core.RetFailure {
+			continue
+		}
+		known := false
+		for l, val := range ff.Flow.CondsAt(r) {
+			g := core.GuardOf(info, l, ff.Errs)
+			if g.Kind == "nil" && g.X != nil && core.VarOf(info, g.X) == recv && val == g.Neg {
+				known = true
+			}
+		}
+		if !known {
+			return false
+		}
+	}
+	if n == 0 {
+		return false
+	}
+	rejectsNilMemo[mfd.Obj] = 1
+	return true
 }
